@@ -12,6 +12,9 @@ spec, ids = args[:sep], args[sep+1:]
 tier = os.environ.get("MUT_TIER", "quick")
 if subprocess.run(["git", "-C", "/repo", "status", "--porcelain"], capture_output=True, text=True).stdout.strip():
     print("refusing: /repo is dirty"); sys.exit(2)
+import shutil, tempfile
+_ev_backup = tempfile.mkdtemp(prefix="evbak")
+shutil.copytree("/verif/evidence", _ev_backup + "/evidence")
 try:
     if spec[0] == "--patch":
         r = subprocess.run(["git", "-C", "/repo", "apply", spec[1]])
@@ -33,3 +36,7 @@ try:
 finally:
     subprocess.run(["git", "-C", "/repo", "checkout", "--", "."])
     subprocess.run(["git", "-C", "/repo", "clean", "-fdq"])
+    # evidence written while a mutant was applied must not survive
+    shutil.rmtree("/verif/evidence", ignore_errors=True)
+    shutil.copytree(_ev_backup + "/evidence", "/verif/evidence")
+    shutil.rmtree(_ev_backup, ignore_errors=True)
